@@ -24,8 +24,39 @@ EnqAll(texts, crit, s) ==      \* s = [q, st, prev, timer, sent]
                   timer |-> first \/ s.timer,
                   sent |-> IF first THEN Append(s.sent, Append(texts[1], 0)) ELSE s.sent])
 
+(* SETFH as trxcon composes it from a hopping list (trx_if_cmd_setfh): "CMD SETFH <hsn> <maio>"
+   followed by one "<rx kHz> <tx kHz>" pair per channel of the list, in the order of the list
+   (Rx = downlink, Tx = uplink, 3GPP TS 45.005 band plans); a list whose pairs - each followed by
+   one space - need more than 999 characters is refused (-ENOSPC) and nothing is sent. *)
+RECURSIVE DecPosT(_)
+DecPosT(n) == IF n < 10 THEN <<48 + n>> ELSE Append(DecPosT(n \div 10), 48 + (n % 10))
+Ul10(a) == IF a >= 32768 THEN 18502 + 2 * ((a - 32768) - 512)              \* PCS 1900 (ARFCN_PCS flag)
+           ELSE IF a <= 124 THEN 8900 + 2 * a
+           ELSE IF a >= 955 /\ a <= 1023 THEN 8900 + 2 * (a - 1024)
+           ELSE IF a >= 128 /\ a <= 251 THEN 8242 + 2 * (a - 128)
+           ELSE IF a >= 512 /\ a <= 885 THEN 17102 + 2 * (a - 512)
+           ELSE -1
+Dl10(a) == IF a >= 32768 THEN Ul10(a) + 800
+           ELSE IF a >= 512 /\ a <= 885 THEN Ul10(a) + 950 ELSE Ul10(a) + 450
+PairText(a) == DecPosT(Dl10(a) * 100) \o <<32>> \o DecPosT(Ul10(a) * 100) \o <<32>>
+RECURSIVE PairsText(_)
+PairsText(ma) == IF ma = <<>> THEN <<>> ELSE PairText(ma[1]) \o PairsText(Tail(ma))
+SetfhKnown(h) == \A k \in 1..Len(h.ma) : Ul10(h.ma[k]) > 0
+SetfhFits(h) == Len(PairsText(h.ma)) <= 999
+SetfhText(h) == LET pt == PairsText(h.ma) IN
+                <<67, 77, 68, 32, 83, 69, 84, 70, 72, 32>> \o DecPosT(h.hsn) \o <<32>> \o DecPosT(h.maio) \o <<32>>
+                \o SubSeq(pt, 1, Len(pt) - 1)
+
+\* a hopping list trxcon refused without sending anything
+TH1Refused ==
+  /\ IsEv("h1refused")
+  /\ Tag("C05.trxcon.setfh-refusal", ~SetfhKnown(Ev.h1) \/ ~SetfhFits(Ev.h1) \/ Len(Ev.h1.ma) = 0)
+  /\ UNCHANGED cvars
+  /\ Adv
+
 TEnq ==
   /\ IsEv("enq")
+  /\ Tag("C05.trxcon.setfh-text", Ev.h1 = <<>> \/ (SetfhKnown(Ev.h1[1]) /\ SetfhFits(Ev.h1[1]) /\ Ev.texts = <<SetfhText(Ev.h1[1])>>))
   /\ Tag("harness.not-terminated", ~term)
   /\ LET r == EnqAll(Ev.texts, Ev.crit, [q |-> q, st |-> st, prev |-> prev, timer |-> timer, sent |-> <<>>]) IN
      /\ q' = r.q /\ st' = r.st /\ prev' = r.prev /\ timer' = r.timer /\ sent' = r.sent
@@ -49,7 +80,7 @@ TTimeout ==
   /\ Adv
 
 TInit == KInit /\ CInit
-TNext == TEnq \/ TRsp \/ TTimeout
+TNext == TEnq \/ TH1Refused \/ TRsp \/ TTimeout
 TSpec == TInit /\ [][TNext]_<<cvars, kvars>>
 Post == WriteVerdicts
 =============================================================================
